@@ -304,6 +304,73 @@ def run(ctx: Context, rep) -> None:
            construct=short(dec[0], 100) if dec else "<none>",
            message="decode_array(np_bytes=<vector>, attribute=<its "
            "declaration>) stored under the attribute's name")
+    # every example is a fresh object: the decoder returns a dictionary it
+    # created in this call (a closure / instance dictionary reused for every
+    # example makes all yielded examples the same object)
+    rets = [r for r in to_dict.body_nodes() if isinstance(r, ast.Return)]
+    own = {}
+    for n in to_dict.body_nodes():
+        if isinstance(n, (ast.Assign, ast.AnnAssign)) and n.value is not None:
+            t = n.targets[0] if isinstance(n, ast.Assign) else n.target
+            if isinstance(t, ast.Name):
+                own.setdefault(t.id, []).append(n.value)
+
+    def fresh(e) -> bool:
+        if isinstance(e, (ast.Dict, ast.DictComp)):
+            return True
+        if isinstance(e, ast.Call) and isinstance(e.func, ast.Name) and \
+                e.func.id in ("dict", "OrderedDict"):
+            return True
+        if isinstance(e, ast.Name):
+            return e.id in own and all(fresh(v) for v in own[e.id])
+        return False
+
+    if pair is not None and pair[2] is None:
+        rep.ob("C15.decode", bool(rets) and all(
+            r.value is not None and fresh(r.value) for r in rets),
+               loc=to_dict.loc(rets[0]) if rets else to_dict.loc(),
+               where=to_dict.qualname,
+               construct="return " + (short(rets[0].value, 40) if rets and
+                                      rets[0].value is not None else "<none>"),
+               message="the decoder returns a dictionary created in this call "
+               "(not one shared between examples)")
+    # the native reader gets at least one thread: the thread count handed to
+    # RustIter / RustGenerator has lower bound >= 1 (threads = 0 panics inside
+    # the native constructor while the registry mutex is held)
+    from sa.rules import shared as _sh15
+    rust_fn = ctx.fn(C.INTERFACES[4])
+    for fn_ in (rust_fn, single, init):
+        for n in fn_.body_nodes():
+            tgt = None
+            if isinstance(n, ast.Assign) and len(n.targets) == 1:
+                tgt = n.targets[0]
+            elif isinstance(n, ast.AnnAssign) and n.value is not None:
+                tgt = n.target
+            if tgt is not None and (dotted(tgt) or "").split(".")[-1].lstrip(
+                    "_") == "file_parallelism" and fn_ is rust_fn:
+                lb = _sh15.lower_bound(fn_, n.value)
+                rep.ob("C15.threads", lb is not None and lb >= 1,
+                       loc=fn_.loc(n), where=fn_.qualname,
+                       construct=short(n, 70),
+                       message="the thread count of the native reader must "
+                       f"stay >= 1 (lower bound here: {lb})")
+        for c_ in fn_.calls():
+            nm = dotted(c_.func) or ""
+            kw = "threads" if nm.endswith("RustIter") else (
+                "file_parallelism" if nm.endswith("RustGenerator") else None)
+            if kw is None:
+                continue
+            a_ = ctx.arg(c_, None, kw)
+            if a_ is None:
+                continue
+            lb = _sh15.lower_bound(fn_, a_)
+            rep.ob("C15.threads", lb is not None and lb >= 1, loc=fn_.loc(c_),
+                   where=fn_.qualname, construct=f"{kw}={short(a_, 50)}",
+                   message="the thread count of the native reader must stay "
+                   f">= 1 (lower bound here: {lb})")
+    rep.rule("C15.threads", "interval lower bound (file_parallelism >= 1) of "
+             "every value that becomes the native reader's thread count is "
+             ">= 1")
     # map(self._to_dict, iter(self._rust_iter))
     maps = [c for c in single.calls() if isinstance(c.func, ast.Name) and
             c.func.id == "map" and len(c.args) == 2 and
@@ -314,12 +381,23 @@ def run(ctx: Context, rep) -> None:
            where=single.qualname,
            construct=short(maps[0]) if maps else "<none>",
            message="every native example goes through the decoder once")
-
+    # nothing read from the dataset's files / the environment is memoised
+    from sa.rules import shared as _shm
+    _shm.check_no_memo(ctx, rep, "C15.memo")
 
 _PM = "rust/src/parallel_map.rs"
 _EI = "rust/src/example_iteration.rs"
 _DI = "src/sedpack/io/dataset_iteration.py"
 SELFTESTS = [
+    dict(rule="C15.decode", name="one-dict-for-all-examples", expect="fire", path=_DI,
+         old="        def to_dict(example: list[np.typing.NDArray[np.uint8]]) -> ExampleT:\n            result: ExampleT = {}\n",
+         new="        result: ExampleT = {}\n\n        def to_dict(example: list[np.typing.NDArray[np.uint8]]) -> ExampleT:\n"),
+    dict(rule="C15.threads", name="threads-capped-by-shards-may-be-zero", expect="fire", path=_DI,
+         old="        with RustGenerator(\n                dataset=self,",
+         new="        if shards is not None:\n            file_parallelism = min(file_parallelism, shards)\n        with RustGenerator(\n                dataset=self,"),
+    dict(rule="C15.threads", name="threads-capped-at-least-one-twin", expect="silent", path=_DI,
+         old="        with RustGenerator(\n                dataset=self,",
+         new="        if shards:\n            file_parallelism = max(1, min(file_parallelism, shards))\n        with RustGenerator(\n                dataset=self,"),
     dict(rule="C15.decode", name="uint8-fast-path-skips-decode", expect="fire", path=_DI,
          old="                result[attribute.name] = IterateShardFlatBuffer.decode_array(",
          new="                if attribute.dtype == \"uint8\":\n                    result[attribute.name] = np_bytes\n                    continue\n                result[attribute.name] = IterateShardFlatBuffer.decode_array("),
